@@ -250,7 +250,9 @@ class HeaderTxHarness(Harness):
             self.c["fifth_header"].eq(ok & first_tx & (n_sent == 4)),
         ]
         self.obs("ev_hdr", ev_hdr)
-        self.obs("w_seq", w_seq)
+        w_seq_o = Signal(3, name="w_seq_o")
+        m.d.comb += w_seq_o.eq(w_seq)
+        self.obs("w_seq", w_seq_o)
         self.obs("credits", credits)
         self.obs("q_ready", dut.queue.ready)
         return m
